@@ -12,3 +12,21 @@ pub fn fmt_format(_args: std::fmt::Arguments<'_>) -> String {
 pub fn mpsc_send<T>(_s: &Sender<T>, _t: T) -> Result<(), SendError<T>> {
     Ok(())
 }
+
+/// `Bus::new` for harnesses whose `Bus::read`/`Bus::write` are replaced by the footprint memory:
+/// the real arrays are never touched there, so the 2 MiB DRAM / vector arrays are allocated with one
+/// byte (keeps the non-sliced formula of counterexample extraction small).  Never used together with
+/// the real `Bus::read`/`Bus::write`.
+pub fn bus_new_small(module_manager: std::rc::Weak<std::cell::RefCell<crate::modules::ModuleManager>>) -> crate::bus::Bus {
+    crate::bus::Bus {
+        message_tx: None,
+        module_manager,
+        cpu_state_sum: 0,
+        memory: crate::memory::create_memory(),
+        exception_handling_vector: vec![0; 1].into_boxed_slice(),
+        dram: vec![0; 1].into_boxed_slice(),
+        io_registrs1: vec![0; crate::bus::IO_REGISTERS1_SIZE].into_boxed_slice(),
+        io_registrs2: vec![0; crate::bus::IO_REGISTERS2_EMC1_SIZE].into_boxed_slice(),
+        io_port_in: [0; crate::bus::IO_PORT_SIZE],
+    }
+}
